@@ -153,7 +153,13 @@ def range_lemma(E, st_b, st_v, r, reveal=False):
     if not reveal:
         return RangeOK(lb.k, lb.v, ub.k, ub.v, flb.k, flb.v, fub.k, fub.v, rlb.k, rlb.v, rub.k, rub.v)
     v, f, b = z3.Real("rl_v"), z3.Real("rl_f"), z3.Real("rl_b")
-    return z3.ForAll([v], in_rng(v, lb, ub) == z3.Exists([f, b], z3.And(in_rng(f, flb, fub), in_rng(b, rlb, rub), f - b == v)))
+    # revealed form, stated without an inner exists: (1) every admissible pair of variable values gives a net flux in [lb, ub];
+    # (2) every v in [lb, ub] is reached by the explicit witness f = max(v, 0), b = max(-v, 0) (f - b = v).  (1) and (2) imply
+    #     forall v. v in [lb, ub] <-> exists f, b in bounds. f - b = v
+    # and, negated, are quantifier-free linear real arithmetic (z3 needed cvc5's help for the forall-exists form).
+    vp, vn = z3.If(v >= 0, v, 0), z3.If(v <= 0, -v, 0)
+    return z3.And(z3.ForAll([f, b], z3.Implies(z3.And(in_rng(f, flb, fub), in_rng(b, rlb, rub)), in_rng(f - b, lb, ub))),
+                  z3.ForAll([v], z3.Implies(in_rng(v, lb, ub), z3.And(in_rng(vp, flb, fub), in_rng(vn, rlb, rub)))))
 
 
 def _uvb_post(E):
